@@ -603,6 +603,10 @@ fn alloc_faults(g: &mut Grid) {
     for c in ALLOC_CTORS {
         let (out, code) = run(c, 0);
         let m: usize = out.lines().find_map(|l| l.strip_prefix("ALLOCS ")).and_then(|s| s.trim().parse().ok()).unwrap_or(0);
+        if code < 0 {
+            g.fail("allocfail-baseline-crash", c, format!("the constructor crashed (signal {}) in a child process without any injected fault", -code));
+            continue;
+        }
         if code != 0 || m == 0 {
             g.fail("machinery:alloc-count", c, format!("fault-free child failed: rc {} out {:?}", code, out));
             continue;
